@@ -255,6 +255,38 @@ func genC08(t *rapid.T, excluded *int) C08Case {
 	}
 	if c.Kind == "having" {
 		c.Having = genHavingC08(t, opNames, 1, "h", excluded)
+		// an output field may carry the name of a table field while being a
+		// different expression; HAVING then means the output field
+		star := false
+		sel := map[string]bool{}
+		for _, f := range c.Q.Fields {
+			star = star || f.Star
+			sel[f.Name] = true
+		}
+		var free []string
+		for _, n := range opNames[1:] {
+			if !sel[n] {
+				free = append(free, n)
+			}
+		}
+		if !star && len(free) > 0 && len(opNames) > 1 && rapid.IntRange(0, 2).Draw(t, "shadow") == 0 {
+			nm := rapid.SampledFrom(free).Draw(t, "shadow.name")
+			a := rapid.SampledFrom(opNames).Draw(t, "shadow.a")
+			b := rapid.SampledFrom(opNames).Draw(t, "shadow.b")
+			op := rapid.SampledFrom([]string{"+", "-", "*"}).Draw(t, "shadow.op")
+			c.Q.Fields = append(c.Q.Fields, h.QField{Name: nm, Ex: &h.Ex{Op: op, Args: []*h.Ex{{Op: "REF", F: a}, {Op: "REF", F: b}}}})
+			type tmpl struct {
+				op     string
+				lo, hi int
+			}
+			tm := rapid.SampledFrom([]tmpl{{">", 0, 6}, {">=", 1, 6}, {"<", -3, 0}, {"<>", 0, 0}}).Draw(t, "shadow.tmpl")
+			cond := &h.Ex{Op: tm.op, Args: []*h.Ex{{Op: "REF", F: nm}, {Op: "CONST", Num: float64(rapid.IntRange(tm.lo, tm.hi).Draw(t, "shadow.c"))}}}
+			if rapid.Bool().Draw(t, "shadow.and") {
+				c.Having = &h.Ex{Op: "AND", Args: []*h.Ex{cond, c.Having}}
+			} else {
+				c.Having = cond
+			}
+		}
 		// HAVING over a crosstab query: the condition is evaluated on the
 		// non-crosstab values of the output group
 		if rapid.IntRange(0, 2).Draw(t, "hct") == 0 {
